@@ -52,7 +52,7 @@ TrRo ==
 TrQCall ==
   /\ IsEv("qcall") /\ q = ""
   /\ Blocked
-  /\ pc \in {"idle", "down", "gone"}
+  /\ pc \in {"idle", "down", "gone", "deleting"}
   /\ q' = Ev.op
   /\ UNCHANGED <<vars, ro, retired>>
 
@@ -66,10 +66,19 @@ TrQRet ==
 \* cancellation = crash of the handle
 TrDrop ==
   /\ IsEv("drop") /\ q = ""
-  /\ pc \notin {"idle", "down", "gone"}
+  /\ pc \notin {"idle", "down", "gone", "deleting"}
   /\ Crash
   /\ retired' = "Poisoned"
   /\ UNCHANGED <<ro, q>>
+
+\* a cancelled delete_collection: the handle (and the name) stay tombstoned - "Deleting" - whatever part
+\* of the prefix was already deleted; only a retry of the deletion goes on from there
+TrDropDelete ==
+  /\ IsEv("drop") /\ q = ""
+  /\ pc = "deleting"
+  /\ retired' = "Deleting"
+  /\ cur' = NoCur                       \* no deletion is in progress any more: nothing may be deleted
+  /\ UNCHANGED <<durable, volatile, pc, nextSeq, ackedIds, ro, q>>
 
 TrState ==
   /\ IsEv("state") /\ q = ""
@@ -92,17 +101,17 @@ TrRecRet ==
 \* delete_collection: only deletions under the prefix, then nothing is left
 TrDeleteCall ==
   /\ IsEv("call") /\ Ev.op = "delete" /\ q = ""
-  /\ Idle
+  /\ Idle \/ (pc = "deleting" /\ retired = "Deleting")        \* the first call, or the retry of a cancelled one
   /\ pc' = "deleting" /\ cur' = [op |-> "delete"]
   /\ UNCHANGED <<durable, volatile, nextSeq, ackedIds, lvars>>
 
 TrDeleteBe ==
-  /\ IsEv("be") /\ pc = "deleting"
+  /\ IsEv("be") /\ pc = "deleting" /\ cur.op = "delete" /\ q = ""
   /\ Ev.kind = "delete"
   /\ UNCHANGED <<vars, lvars>>
 
 TrDeleteRet ==
-  /\ IsEv("ret") /\ Ev.op = "delete" /\ Ev.ok /\ pc = "deleting"
+  /\ IsEv("ret") /\ Ev.op = "delete" /\ Ev.ok /\ pc = "deleting" /\ cur.op = "delete"
   /\ dDoc' = [id \in Id |-> NoDoc]
   /\ dMeta' = [maxId |-> 0, idx |-> {}, ext |-> 0]
   /\ dIds' = {} /\ dCP' = 0 /\ dWM' = 0 /\ dInt' = {}
@@ -125,11 +134,12 @@ LifeInit == TraceInit /\ ro = NoRo /\ retired = "" /\ q = ""
 
 LifeNext ==
   \/ Base
-  \/ ((TrRo \/ TrQCall \/ TrQRet \/ TrDrop \/ TrState \/ TrRecCall \/ TrRecRet
+  \/ ((TrRo \/ TrQCall \/ TrQRet \/ TrDrop \/ TrDropDelete \/ TrState \/ TrRecCall \/ TrRecRet
         \/ TrDeleteCall \/ TrDeleteBe \/ TrDeleteRet \/ TrListing) /\ UNCHANGED flt)
 
 LifeSpec == LifeInit /\ [][LifeNext]_ltvars
 
 \* retired handles are retired for ever (action property)
-RetiredForEver == [][retired # "" /\ l <= Len(Rec) /\ Rec[l].e # "init" => retired' = retired]_ltvars
+RetiredForEver == [][retired # "" /\ l <= Len(Rec) /\ Rec[l].e # "init" =>
+                         retired' = retired \/ (retired = "Deleting" /\ retired' = "Deleted")]_ltvars
 =============================================================================
